@@ -75,11 +75,12 @@ SrcShapes ==
     [] SrcPreset = "small" -> {<<4>>, <<6>>, <<2, 3>>, <<3, 4>>, <<2, 2, 3>>}
     [] SrcPreset = "win"   -> {<<n>> : n \in 1..8} \cup {<<3, 5>>, <<4, 3>>}
     [] SrcPreset = "rnd"   -> {<<6>>, <<3, 4>>}
+    [] SrcPreset = "red"   -> {<<5>>, <<7>>, <<3, 4>>, <<2, 3, 2>>}
     [] SrcPreset = "lean1" -> {<<5>>}
     [] SrcPreset = "lean2" -> {<<3, 4>>}
     [] SrcPreset = "lean3" -> {<<2, 3, 2>>}
     [] SrcPreset = "lean"  -> {<<5>>, <<3, 4>>, <<2, 3, 2>>}
-SrcKinds == CASE SrcPreset \in {"1d", "1d7", "lean", "lean1", "lean2", "lean3"} -> {"i"} [] SrcPreset = "rnd" -> {"i", "f"}
+SrcKinds == CASE SrcPreset \in {"1d", "1d7", "lean", "lean1", "lean2", "lean3"} -> {"i"} [] SrcPreset = "rnd" -> {"i", "f"} [] SrcPreset = "red" -> {"i", "b", "n"}
               [] OTHER -> {"i", "f", "b"}
 
 \* source data: distinct small integers (index-mapping errors change values);
@@ -88,8 +89,10 @@ SrcData(shape, kind, salt) ==
   [k \in 1..Size(shape) |->
      CASE kind = "i" -> (k - 1) + salt
        [] kind = "f" -> QNorm(<<2 * (k - 1) + 1 + 2 * salt, 2>>)
-       [] kind = "b" -> B(((k + salt) * 3) % 5 < 2)]
-MkSrc(shape, kind, salt) == Arr(shape, SrcData(shape, kind, salt), kind)
+       [] kind = "b" -> B(((k + salt) * 3) % 5 < 2)
+       \* "n": inexact data with NaNs (every fourth element, starting at the second) and a repeated value
+       [] kind = "n" -> IF k % 4 = 2 THEN QNaN ELSE QNorm(<<2 * ((k - 1) % 5) + 1 + 2 * salt, 2>>)]
+MkSrc(shape, kind, salt) == Arr(shape, SrcData(shape, kind, salt), IF kind = "n" THEN "f" ELSE kind)
 
 \* chunk grid of a source: every grid (exhaustive: the replayer iterates over
 \* the set `grids`) or one picked at random (simulation)
@@ -289,7 +292,7 @@ ReduceAct ==
   /\ Allowed("Reduce") /\ CanStep
   /\ \E x \in Pick({h \in Live : Rank(env[h]) >= 1}) : \E op \in Pick(L(RedOps \ {"argmin", "argmax"}, {"sum", "max", "mean", "any"})) :
        \E axes \in Pick(AxisSubsets(Rank(env[x]))) : \E kd \in Pick(L({TRUE, FALSE}, {op = "sum" /\ Cardinality(axes) = 1})) :
-         \E se \in Pick(L({0, 2, 3}, {IF op \in {"sum", "mean"} THEN 2 ELSE 0})) :
+         \E se \in Pick(L({0, 2, 3} \cup (IF Rank(env[x]) = 2 THEN {23} ELSE {}), {IF op \in {"sum", "mean"} THEN 2 ELSE 0})) :
          /\ RedOpOK(op, env[x])
          /\ (op \in {"count_nonzero", "ptp"} => ~kd /\ se = 0)       \* the public functions take neither keyword
          /\ Push([a |-> "Reduce", op |-> op, x |-> x, axes |-> SetToSeqAsc(axes), keepdims |-> kd, split_every |-> se,
@@ -500,6 +503,45 @@ ComputeChunkSizesAct ==
        InPlace([a |-> "ComputeChunkSizes", x |-> x], x, env[x])
 
 (***************************************************************************)
+(* Advanced indexing (C12): boolean masks along an axis (NumPy or dask),   *)
+(* dask integer arrays, pointwise .vindex, Ellipsis.  ok = FALSE: NumPy    *)
+(* raises (out of bounds) and so must dask_array.                          *)
+(***************************************************************************)
+MaskPatterns(n) == IF n <= 4 THEN [1..n -> {0, 1}]
+                   ELSE {[j \in 1..n |-> 0], [j \in 1..n |-> 1], [j \in 1..n |-> j % 2], [j \in 1..n |-> IF j = 1 \/ j = n THEN 1 ELSE 0],
+                         [j \in 1..n |-> IF j % 3 = 0 THEN 1 ELSE 0]}
+IntLists(n) == {<<n - 1, 0>>, <<0, -1, 0>>, <<-n>>, <<n>>, <<1, -n - 1>>} \cup {<<p>> : p \in 0..(n - 1)}
+ListOK(lst, n) == \A j \in 1..Len(lst) : -n <= lst[j] /\ lst[j] < n
+AdvIndexAct ==
+  /\ Allowed("AdvIndex") /\ CanStep
+  /\ \E x \in Pick({h \in Live : Rank(env[h]) >= 1 /\ Rank(env[h]) <= 3 /\ \A a \in 1..Rank(env[h]) : env[h].shape[a] >= 1}) :
+       LET A == env[x] r == Rank(env[x]) IN
+       \/ \E ax \in Pick(1..r) : \E m \in Pick(MaskPatterns(A.shape[ax])) : \E lib \in Pick({"np", "da"}) :
+            Push([a |-> "AdvIndex", mode |-> "mask", x |-> x, axis |-> ax, mask |-> m, lib |-> lib, ok |-> TRUE],
+                 MaskAxis(A, Arr(<<Len(m)>>, m, "b"), ax))
+       \/ \E ax \in Pick(1..r) : \E lst \in Pick(IntLists(A.shape[ax])) : \E lib \in Pick({"np", "da"}) :
+            Push([a |-> "AdvIndex", mode |-> "intarr", x |-> x, axis |-> ax, list |-> lst, lib |-> lib, ok |-> ListOK(lst, A.shape[ax])],
+                 IF ListOK(lst, A.shape[ax]) THEN Take(A, [j \in 1..Len(lst) |-> PosInt(lst[j], A.shape[ax])], ax) ELSE Err)
+       \/ /\ r >= 2
+          /\ \E axes \in Pick({S \in SUBSET (1..r) : Cardinality(S) >= 2 /\ (Cardinality(S) = r \/ S = {1, r})}) :
+               \E npts \in Pick({1, 2, 3}) : \E sel \in Pick({"first", "last-neg", "mixed", "oob"}) :
+                 LET lists == [a \in 1..r |-> IF a \notin axes THEN <<>>
+                                               ELSE [j \in 1..npts |-> CASE sel = "first" -> 0
+                                                                          [] sel = "last-neg" -> -1
+                                                                          [] sel = "mixed" -> ((j + a) % A.shape[a])
+                                                                          [] OTHER -> IF j = npts THEN A.shape[a] ELSE 0]]
+                     ok == \A a \in axes : ListOK(lists[a], A.shape[a])
+                 IN Push([a |-> "AdvIndex", mode |-> "vindex", x |-> x, lists |-> lists, ok |-> ok], IF ok THEN VIndex(A, lists) ELSE Err)
+       \/ /\ r >= 2
+          /\ \E e \in Pick({IntIx(0), IntIx(-1), SliceIx(1, None, None), SliceIx(None, None, -1), IntIx(A.shape[1] + A.shape[r])}) :
+               \E where \in Pick({"front", "back"}) :
+                 LET full == [a \in 1..r |-> SliceIx(None, None, None)]
+                     idx == IF where = "back" THEN [full EXCEPT ![r] = e] ELSE [full EXCEPT ![1] = e]
+                     ok == IndexOK(A.shape, idx)
+                 IN Push([a |-> "AdvIndex", mode |-> "ellipsis", x |-> x, elem |-> e, where |-> where, ok |-> ok],
+                         IF ok THEN BasicIndex(A, idx) ELSE Err)
+
+(***************************************************************************)
 (* Random arrays (C06, C07, C23): the values are a REALIZATION the          *)
 (* specification cannot predict; the handle's denotation is a placeholder  *)
 (* (the replayer substitutes the first computed value of the base and      *)
@@ -523,7 +565,7 @@ PersistAct ==
 
 Next ==
   \/ Start
-  \/ RechunkSpecAct \/ MapBlocksAct \/ SetItemAct \/ MaskSetAct \/ OutUfuncAct \/ MaskSelectAct \/ UnknownAct \/ ComputeChunkSizesAct \/ RandomAct \/ PersistAct
+  \/ RechunkSpecAct \/ MapBlocksAct \/ SetItemAct \/ MaskSetAct \/ OutUfuncAct \/ MaskSelectAct \/ UnknownAct \/ ComputeChunkSizesAct \/ RandomAct \/ AdvIndexAct \/ PersistAct
   \/ Index \/ Elemwise \/ UnaryAct \/ AsTypeAct \/ TransposeAct \/ ReshapeAct \/ ExpandSqueeze \/ FlipRoll
   \/ ConcatStack \/ RechunkAct \/ ReduceAct \/ ArgReduce \/ CumulativeAct \/ DiffAct \/ WhereAct \/ TakeAct
   \/ BroadcastAct \/ WindowAct \/ WindowReduce \/ DotAct \/ PadRepeat \/ TopKAct
